@@ -37,7 +37,14 @@ func callIs(c *ssa.CallCommon, target *ssa.Function) bool {
 		return false
 	}
 	if sc := staticCallee(c); sc != nil {
-		return sc == origin(target)
+		if sc == origin(target) {
+			return true
+		}
+		// slices.Equal on byte slices is bytes.Equal (one rule, either library spelling)
+		if t := origin(target); t.Pkg != nil && sc.Pkg != nil && t.Name() == "Equal" && sc.Name() == "Equal" && t.Pkg.Pkg.Path() == "bytes" && sc.Pkg.Pkg.Path() == "slices" {
+			return true
+		}
+		return false
 	}
 	if c.IsInvoke() {
 		if c.Method.Name() != target.Name() {
